@@ -554,9 +554,16 @@ func runC12(c *Ctx) {
 			primary := sl.Derives(args[1], func(v ssa.Value) bool {
 				cv, ok := v.(*ssa.Call)
 				return ok && invokeIs(cv, stypPkg, "CertificateAuthority", "PrimarySigningKeyVersion")
-			}) || len(callsIn(next, func(cc ssa.CallInstruction) bool {
-				return invokeIs(cc, stypPkg, "CertificateAuthority", "PrimarySigningKeyVersion")
-			})) > 0
+			})
+			// the certificate is parsed from bytes (x509.ParseCertificate is not a data transformer the slice
+			// follows): the primary version is asked for in the function or in a same-package helper it is split into
+			for _, g := range unexportedRegion(next) {
+				if len(callsIn(g, func(cc ssa.CallInstruction) bool {
+					return invokeIs(cc, stypPkg, "CertificateAuthority", "PrimarySigningKeyVersion")
+				})) > 0 {
+					primary = true
+				}
+			}
 			if one && fromSubject && primary {
 				okAdd = true
 			}
